@@ -55,6 +55,19 @@ func fromPrinters(name string) EngineSpec {
 	return EngineSpec{Name: name, Filter: func(w *World, o Obligation) bool { return printerReach(w)[o.Func] }}
 }
 
+// printerOnly: functions of package cmd reachable from the editor-query printers.
+func printerOnly(name string) EngineSpec {
+	return EngineSpec{Name: name, Filter: func(w *World, o Obligation) bool {
+		return printerReach(w)[o.Func] && strings.HasPrefix(o.Func, "cmd.")
+	}}
+}
+
+func notPrinterOnly(name string) EngineSpec {
+	return EngineSpec{Name: name, Filter: func(w *World, o Obligation) bool {
+		return !(printerReach(w)[o.Func] && strings.HasPrefix(o.Func, "cmd."))
+	}}
+}
+
 func and(a, b EngineSpec) EngineSpec {
 	return EngineSpec{Name: a.Name, Filter: func(w *World, o Obligation) bool {
 		return (a.Filter == nil || a.Filter(w, o)) && (b.Filter == nil || b.Filter(w, o))
@@ -118,8 +131,8 @@ func propertyIDs() []string {
 
 func init() {
 	claim("C01", PropertySpec{
-		Engines: []EngineSpec{all("NT"), rules("REG", "REG-dyn", "REG-type", "REG-exit")},
-		Clause: "Structural necessary conditions of 'never crashes', decided on every path of the current source: (NT) no nil dereference on the end-of-input path of any of the token-read call sites, and none on the miss path of any table-lookup call site; (REG-dyn) unchecked evaluator-registry lookups use registered keys and every evaluator type is registered; (REG-type) every constructible kind of T has a case in the panicking rendering switch; (REG-exit) explicit panics / non-zero exits reachable from main are exactly the reviewed set. The behaviour itself (exit status, output format) is not decided.",
+		Engines: []EngineSpec{all("NT"), rules("REG", "REG-dyn", "REG-type", "REG-exit"), notPrinterOnly("IX"), all("TA"), rules("ED", "ED-1", "ED-3")},
+		Clause: "Structural necessary conditions of 'never crashes', decided on every path of the current source: (NT) no nil dereference on the end-of-input path of any of the token-read call sites, and none on the miss path of any table-lookup call site; (REG-dyn) unchecked evaluator-registry lookups use registered keys and every evaluator type is registered; (REG-type) every constructible kind of T has a case in the panicking rendering switch; (REG-exit) explicit panics / non-zero exits reachable from main are exactly the reviewed set; (IX) every constant-position index/slice and every variable index into a fixed array is guarded on all paths, structurally bounded, guarded by all callers, or individually reviewed; (TA) every unchecked type assertion is dominated by a check of the same type on the same storage, discharged by the lexer kind/value pairing analysis or by a container invariant, or individually reviewed; (ED-1, ED-3) diagnostics are recorded by a single writer in one format and their text cannot contain a line break. The behaviour itself (exit status, output format) is not decided.",
 		NotCovered: "variable-index bounds, nil values stored in slices/fields and dereferenced later, stack exhaustion, out-of-memory, rendering text, correlated-predicate paths (reviewed exceptions listed)",
 	}, propMeta{Technique: "abstract interpretation over go/ssa (nilness/constant lattice, interprocedural summaries, EOF and lookup-miss environments) + registry exhaustiveness over resolved constants + call-graph reachability of exits",
 		LevelText: "every rule instance in the source is enumerated and decided (exhaustive over call sites, not over inputs); a violated or undecided instance fails the check. This is a necessary-condition check, weaker than a proof of the property and stronger than any input sample: the nil path of each read is taken whether or not a test reaches it.",
@@ -142,8 +155,8 @@ func init() {
 		LevelNote: "trusts go/types constant evaluation; the token-kind field and the read switch are resolved by role (rune field of Lexer, switch on the rune field of Parser in the read primitive)", DesignRef: "4 EL, REG-tok, REG-eos; 5 C03"})
 
 	claim("C04", PropertySpec{
-		Engines: []EngineSpec{fromPrinters("REC")},
-		Clause: "C01's and C02's rules restricted to the code reachable (VTA call graph) from the editor-query printers of package cmd (functions taking the finished Parser by value): graph recursion over the inheritance table is cycle-guarded (the printers contain no token reads and no table lookups, so NT and EL have no instance there).",
+		Engines: []EngineSpec{fromPrinters("REC"), printerOnly("IX")},
+		Clause: "C01's and C02's rules restricted to the code reachable (VTA call graph) from the editor-query printers of package cmd (functions taking the finished Parser by value): graph recursion over the inheritance table is cycle-guarded, and every constant-position index in the printers' own code is guarded or reviewed (the printers contain no token reads and no table lookups, so NT and EL have no instance there).",
 		NotCovered: "which records are printed; index guards in the printers (claimed with IX when built); hangs and crashes of the analysis that precedes the printers are reported under C01/C02",
 	}, propMeta{Technique: "call-graph reachability from the query printers + the REC/NT/EL rules on the reachable functions",
 		LevelText: "all functions reachable from the printers are enumerated from the call graph on every run and each rule instance in them is decided.",
@@ -156,6 +169,14 @@ func init() {
 	}, propMeta{Technique: "effect classification of map-range bodies over the type-checked AST with call-graph effect summaries; comparator totality against the key-determining field set derived from the map's store site",
 		LevelText: "every map range in the source is enumerated and classified; the classification is conservative (unknown effects fail), so 'holds' means no map order can reach stdout through these loops.",
 		LevelNote: "assumes distinct map keys produce distinct target keys in keyed stores (SetValueT from snapshots, narrowing); trusts the VTA call graph for print/global-store summaries", DesignRef: "4 MO; 5 C05"})
+
+	claim("C07", PropertySpec{
+		Engines: []EngineSpec{rules("ED", "ED-1", "ED-2")},
+		Clause: "A diagnostic, once produced, reaches the report: (ED-1) the diagnostics list has a single appending writer under the reporting-round test and is otherwise only reset per round; (ED-2) at each of the call sites whose callee may return a diagnostic built in eval / eval/method_evaluator (186 today, closed over return statements and the VTA call graph) the error result is read — not a call statement, not `_`, not a dead value.",
+		NotCovered: "whether the diagnostic is produced at all (argument checking, lookup, overloads: runtime type sets)",
+	}, propMeta{Technique: "error-flow analysis over go/ssa and the VTA call graph (diagnostic sources closed over return statements; dead-value detection at call sites) + who-may-write rule on the diagnostics field",
+		LevelText: "all call sites returning an error are enumerated; those that can carry a diagnostic are decided exactly (the value is read or it is not).",
+		LevelNote: "callees that can only return nil or lexical errors of package parser are exempt by derivation; reviewed exceptions (recovery scans, speculative re-evaluation) are printed in the evidence", DesignRef: "4 ED; 5 C07"})
 
 	claim("C09", PropertySpec{
 		Engines: []EngineSpec{rules("REG", "REG-type")},
